@@ -64,13 +64,13 @@ def _method(ex: Exec, base: SV, name: str, node: ast.Call):
         ex.assume(n >= 0)
 
         def get(i, fid=fid):
-            label = SV(None, T.RAW, aux=("timedelta", row_secs(fid, i)))
+            label = SV(S.mk_real(row_secs(fid, i)), T.RAW, aux=("timedelta",))
             oid = ex.new_obj("pd.Series") if not ex.spec and getattr(ex, "bound_depth", 0) == 0 else z3.Int("row!obj")
             return [label, SV(S.mk_ref(oid), T.obj("pd.Series"))]
 
         return SV(None, T.RAW, aux=IterAbs(n, get))
     if base.ty.kind == "raw" and isinstance(base.aux, tuple) and base.aux[0] == "timedelta" and name == "total_seconds":
-        return sv_real(base.aux[1])
+        return sv_real(S.un_real(base.t))  # the value lives in the term (it survives loop havoc), not in aux
     if base.ty.kind == "obj" and base.ty.cls in ("pd.Series", "Series") and name == "to_dict":
         lib.used(ex, "Series.to_dict(): a fresh dict (contents not modelled)")
         return ex.new_dict(T.dict_of(T.STR, T.REAL))
@@ -115,3 +115,68 @@ def _subscript_iloc(ex: Exec, base: SV, key: SV):
 
 
 lib.subscript_hook = _subscript_iloc
+
+
+# -- Timedelta values and frames built from {Timedelta: row} (C14 make_protocol) -------------------
+# A Timedelta is the real number of its seconds (value semantics: equal seconds = equal key).
+def _td(secs) -> SV:
+    return SV(S.mk_real(secs), T.RAW, aux=("timedelta",))
+
+
+def _is_td(v: SV) -> bool:
+    return v.ty.kind == "raw" and isinstance(v.aux, tuple) and len(v.aux) == 1 and v.aux[0] == "timedelta" and v.t is not None
+
+
+def _module_call_td(ex: Exec, dotted: str, node: ast.Call):
+    if dotted in ("pd.Timedelta", "pandas.Timedelta"):
+        lib.used(ex, "pd.Timedelta: the real number of its seconds; + adds seconds; as a dict key two Timedeltas are equal iff their seconds are")
+        if node.args and not node.keywords:
+            v = ex.eval(node.args[0])
+            return _td(ex.num(v))
+        for k in node.keywords:
+            if k.arg == "seconds":
+                return _td(ex.num(ex.eval(k.value)))
+        return None
+    if dotted in ("pd.DataFrame", "pandas.DataFrame") and len(node.args) == 1 and not node.keywords:
+        d = ex.eval(node.args[0])
+        if d.ty.kind == "dict":
+            lib.used(ex, "pd.DataFrame(dict).T: one row per key of the dict, in key order, labelled by the key")
+            fid = ex.new_obj("pd.DataFrame")
+            me = SV(S.mk_ref(fid), T.obj("pd.DataFrame"))
+            ex.frame_from_dict = getattr(ex, "frame_from_dict", {})
+            ex.frame_from_dict[fid.get_id() if hasattr(fid, "get_id") else id(fid)] = (fid, ex.seq(d))
+            return me
+    return None
+
+
+lib.MODULE_CALL_HOOKS.insert(0, _module_call_td)
+
+
+def _binop_td(ex: Exec, op, a: SV, b: SV):
+    if _is_td(a) and _is_td(b) and isinstance(op, ast.Add):
+        return _td(S.un_real(a.t) + S.un_real(b.t))
+    return None
+
+
+lib.BINOP_HOOKS.insert(0, _binop_td)
+
+
+def _attr_T(ex: Exec, base: SV, name: str):
+    if base.ty.kind == "obj" and base.ty.cls in ("pd.DataFrame", "DataFrame") and name == "T":
+        reg = getattr(ex, "frame_from_dict", {})
+        for fid, keys in reg.values():
+            if z3.simplify(fid - ex.ref_id(base)).eq(z3.IntVal(0)):
+                # transposed frame of a dict-of-rows: row i is labelled by the i-th key
+                nid = ex.new_obj("pd.DataFrame")
+                j = z3.Int("j!tdrow")
+                ex.assume(n_rows(nid) == z3.Length(keys))
+                ex.assume(z3.ForAll([j], z3.Implies(z3.And(0 <= j, j < z3.Length(keys)), row_secs(nid, j) == S.un_real(S.ELT(keys, j))), patterns=[S.ELT(keys, j)]))
+                ex.assume(z3.ForAll([j], z3.Implies(z3.And(0 <= j, j < z3.Length(keys)), row_secs(nid, j) == S.un_real(keys[j]))))
+                if not getattr(ex, "_elt_def", False):
+                    ex._elt_def = True
+                    ex.assume(S.elt_definition())
+                return SV(S.mk_ref(nid), T.obj("pd.DataFrame"))
+    return None
+
+
+lib.ATTR_HOOKS.insert(0, _attr_T)
